@@ -11,7 +11,7 @@ PROPS = {
                 real=[("tamper", 200, 8000)]),
     "C04": dict(fams=[("seqgrid", 40, 2000), ("alggrid", 0, 0), ("s1", 300, 20000), ("he", 200, 5000)]),
     "C05": dict(fams=[("depthgrid", 0, 0), ("tbsgrid", 0, 0), ("dec", 6000, 600000), ("dechdr", 2000, 100000), ("hdrgrid", 0, 0)]),
-    "C06": dict(fams=[("depthgrid", 0, 0), ("dec", 2500, 300000), ("use", 2500, 200000), ("keygrid", 600, 60000), ("hist", 400, 30000),
+    "C06": dict(fams=[("depthgrid", 0, 0), ("tbsgrid", 0, 0), ("dec", 2500, 300000), ("use", 2500, 200000), ("keygrid", 600, 60000), ("hist", 400, 30000),
                       ("dechdr", 800, 50000), ("hacc", 600, 30000)]),
     "C07": dict(fams=[("tbsgrid", 0, 0), ("depthgrid", 0, 0), ("v1", 3000, 200000), ("vm", 1500, 100000), ("dec", 1500, 100000), ("reenc", 500, 20000)],
                 real=[("foreign", 100, 5000), ("bigprot", 1, 1)]),
